@@ -12,6 +12,7 @@
    [spec_right] are the filtered, cropped images): its own meaning is C10's. *)
 From Coq Require Import ZArith QArith Qround List Bool Lia.
 From Pandora Require Import Model.Cbca Spec.Cbca Proofs.CbcaP.
+From Pandora Require Lib.KernelIR Model.CbcaIR Proofs.CbcaIRP Gen.CbcaKernels.
 Import ListNotations.
 Open Scope Z_scope.
 
@@ -197,6 +198,182 @@ Example C11_distance1_witness :
   /\ ray_arm (fun j => witness_line (2 - j)) 1 (5 # 1) 10%Q = 0.   (* the property *)
 Proof. vm_compute. auto. Qed.
 
+(* ================================================================================================
+   Tie to the source (T-gen).  Gen/CbcaKernels.v is rewritten at every run from the `ast` of the
+   five numba kernels of pandora/aggregation/cbca.py (translator/gen_cbca_kernels.py) as trees of
+   the IR of Lib/KernelIR.v, whose evaluator [run_kernel] carries the Python / numpy / IEEE
+   meaning (negative indices wrap around, out-of-range accesses are errors, range / break / loop
+   variable after the loop, slices, NaN and +-inf).  The theorems below are about THOSE trees:
+   C11_gen_<kernel>_canonical are the per-run obligations "what the code says now is the tree the
+   proofs were made for" (it fails to type-check as soon as one index, bound, operator, dtype or
+   statement of a kernel changes; renaming a local does not change the tree); the others say what
+   the evaluation of the generated kernels computes, for ALL inputs, and that it never leaves an
+   array. *)
+Module IR := Pandora.Lib.KernelIR.
+Module G := Pandora.Gen.CbcaKernels.
+Module K := Pandora.Model.CbcaIR.
+Module P := Pandora.Proofs.CbcaIRP.
+
+Theorem C11_gen_cross_support_canonical : G.cross_support = K.cross_support.
+Proof. exact eq_refl. Qed.
+Theorem C11_gen_step1_canonical : G.cbca_step_1 = K.cbca_step_1.
+Proof. exact eq_refl. Qed.
+Theorem C11_gen_step2_canonical : G.cbca_step_2 = K.cbca_step_2.
+Proof. exact eq_refl. Qed.
+Theorem C11_gen_step3_canonical : G.cbca_step_3 = K.cbca_step_3.
+Proof. exact eq_refl. Qed.
+Theorem C11_gen_step4_canonical : G.cbca_step_4 = K.cbca_step_4.
+Proof. exact eq_refl. Qed.
+
+(* cross_support as written in the source = Model.cross_support, hence (C11_arms_spec) the arms of
+   the specification; image = the filtered image after nan_to_num (a masked pixel is +inf) *)
+Theorem C11_gen_cross_support_eq : forall nr nc len inten I IM,
+  0 <= nr -> 0 <= nc -> IR.ashape IM = [nr; nc] ->
+  (forall r c, 0 <= r < nr -> 0 <= c < nc -> IR.adata IM [r; c] = IR.VFlt (P.of_img (I r c))) ->
+  exists C, IR.run_kernel G.cross_support [IR.VInt len; IR.VFlt (IR.Fin inten)] [IM] = Some [C] /\
+    P.arms_arr C nr nc (cross_support nr nc I len inten).
+Proof. exact (P.gen_cross_support G.cross_support eq_refl). Qed.
+
+(* the evaluator computes with unbounded integers while the arms are stored in an int32 array:
+   the store is exact as soon as cbca_distance <= 2^31 or both image sides are <= 2^31 (an arm
+   is at most max(1, cbca_distance - 1) pixels long and stays inside the image) *)
+Theorem C11_gen_arms_fit_int32 : forall nr nc len inten I r c k,
+  1 <= len -> 0 <= r < nr -> 0 <= c < nc -> 0 <= k < 4 ->
+  len <= 2147483648 \/ (nr <= 2147483648 /\ nc <= 2147483648) ->
+  0 <= P.arm_at (cross_support nr nc I len inten r c) k <= 2147483647.
+Proof. exact P.arms_fit_int32. Qed.
+
+(* regression: the defect repaired by the second `fix:` commit of the tree under test.  On a flat
+   unmasked row of 33000 pixels with cbca_distance = 40000 the left arm of the last pixel has 32999
+   pixels: it does not fit the int16 cell the code stored it in (the compiled kernel returned
+   -32537, and the aggregated costs of the 464 pixels with such an arm were wrong); it fits int32. *)
+Example C11_int16_witness :
+  aL (cross_support 1 33000 (fun _ _ => Some 7%Q) 40000 (5 # 1) 0 32999) = 32999 /\ 32767 < 32999 <= 2147483647.
+Proof. exact P.int16_witness. Qed.
+
+(* cbca_step_1 as written in the source = Model.step1 (cv: NaN where the cost is not computable) *)
+Theorem C11_gen_step1_eq : forall nr nc cv A,
+  0 <= nr -> 0 <= nc -> IR.ashape A = [nr; nc] ->
+  (forall r c, 0 <= r < nr -> 0 <= c < nc -> IR.adata A [r; c] = IR.VFlt (P.of_cost (cv r c))) ->
+  exists S, IR.run_kernel G.cbca_step_1 [] [A] = Some [S] /\ IR.ashape S = [nr; nc + 1] /\
+    forall r c, 0 <= r < nr -> 0 <= c < nc + 1 -> P.fval (IR.adata S [r; c]) (step1 nc cv r c).
+Proof. exact (P.gen_step1 G.cbca_step_1 eq_refl). Qed.
+
+(* cbca_step_2 as written in the source = Model.step2 / Model.sum2 on the columns listed in
+   range_col, 0 elsewhere; the arm hypothesis is the in-range condition of its two reads of step1 *)
+Theorem C11_gen_step2_eq : forall nr nc ncR crossL crossR d s1 S1 CL CR RC RCR cols,
+  0 <= nr -> 0 <= nc -> IR.ashape S1 = [nr; nc + 1] ->
+  (forall r c, 0 <= r < nr -> 0 <= c < nc + 1 -> P.fval (IR.adata S1 [r; c]) (s1 r c)) ->
+  P.arms_arr CL nr nc crossL -> P.arms_arr CR nr ncR crossR ->
+  P.ints_arr RC cols (fun c => c) -> P.ints_arr RCR cols (corr d) -> NoDup cols ->
+  (forall c, In c cols -> 0 <= c < nc /\ 0 <= corr d c < ncR) ->
+  (forall r c, 0 <= r < nr -> In c cols ->
+     0 <= h_left crossL crossR d r c <= c /\ 0 <= h_right crossL crossR d r c <= nc - 1 - c) ->
+  exists S SM, IR.run_kernel G.cbca_step_2 [] [S1; CL; CR; RC; RCR] = Some [S; SM] /\
+    IR.ashape S = [nr; nc] /\ IR.ashape SM = [nr; nc] /\
+    forall r c, 0 <= r < nr -> 0 <= c < nc ->
+      (In c cols ->
+         P.fval (IR.adata S [r; c]) (qsub (s1 r (c + h_right crossL crossR d r c))
+                                          (s1 r (wrap (nc + 1) (c - h_left crossL crossR d r c - 1)))) /\
+         P.fval (IR.adata SM [r; c]) (inject_Z (h_right crossL crossR d r c + h_left crossL crossR d r c))) /\
+      (~ In c cols -> IR.adata S [r; c] = IR.VFlt (IR.Fin 0) /\ IR.adata SM [r; c] = IR.VFlt (IR.Fin 0)).
+Proof. exact (P.gen_step2 G.cbca_step_2 eq_refl). Qed.
+
+(* cbca_step_3 as written in the source = Model.step3 *)
+Theorem C11_gen_step3_eq : forall nr nc s2 B,
+  1 <= nr -> 0 <= nc -> IR.ashape B = [nr; nc] ->
+  (forall r c, 0 <= r < nr -> 0 <= c < nc -> P.fval (IR.adata B [r; c]) (s2 r c)) ->
+  exists S, IR.run_kernel G.cbca_step_3 [] [B] = Some [S] /\ IR.ashape S = [nr + 1; nc] /\
+    forall r c, 0 <= r < nr + 1 -> 0 <= c < nc -> P.fval (IR.adata S [r; c]) (step3 nr s2 r c).
+Proof. exact (P.gen_step3 G.cbca_step_3 eq_refl). Qed.
+
+(* cbca_step_4 as written in the source = Model.step4 / Model.sum4 on the columns listed in
+   range_col; elsewhere step4 is 0 and sum4 is sum2 *)
+Theorem C11_gen_step4_eq : forall nr nc ncR crossL crossR d s3 sm2 S3 SM2 CL CR RC RCR cols,
+  0 <= nr -> 0 <= nc -> IR.ashape S3 = [nr + 1; nc] ->
+  (forall r c, 0 <= r < nr + 1 -> 0 <= c < nc -> P.fval (IR.adata S3 [r; c]) (s3 r c)) ->
+  IR.ashape SM2 = [nr; nc] ->
+  (forall r c, 0 <= r < nr -> 0 <= c < nc -> P.fval (IR.adata SM2 [r; c]) (inject_Z (sm2 r c))) ->
+  P.arms_arr CL nr nc crossL -> P.arms_arr CR nr ncR crossR ->
+  P.ints_arr RC cols (fun c => c) -> P.ints_arr RCR cols (corr d) -> NoDup cols ->
+  (forall c, In c cols -> 0 <= c < nc /\ 0 <= corr d c < ncR) ->
+  (forall r c, 0 <= r < nr -> In c cols ->
+     0 <= v_top crossL crossR d r c <= r /\ 0 <= v_bot crossL crossR d r c <= nr - 1 - r) ->
+  exists S SM, IR.run_kernel G.cbca_step_4 [] [S3; SM2; CL; CR; RC; RCR] = Some [S; SM] /\
+    IR.ashape S = [nr; nc] /\ IR.ashape SM = [nr; nc] /\
+    forall r c, 0 <= r < nr -> 0 <= c < nc ->
+      (In c cols ->
+         P.fval (IR.adata S [r; c]) (qsub (s3 (r + v_bot crossL crossR d r c) c)
+                                          (s3 (wrap (nr + 1) (r - v_top crossL crossR d r c - 1)) c)) /\
+         P.fval (IR.adata SM [r; c])
+                (inject_Z (let top := v_top crossL crossR d r c in
+                           let bot := v_bot crossL crossR d r c in
+                           sm2 r c + (top + bot)
+                           + (if top =? 0 then 0 else zsum (map (fun k0 => sm2 k0 c) (zrange (r - top) top)))
+                           + (if bot =? 0 then 0 else zsum (map (fun k0 => sm2 k0 c) (zrange (r + 1) bot)))))) /\
+      (~ In c cols -> IR.adata S [r; c] = IR.VFlt (IR.Fin 0) /\ IR.adata SM [r; c] = IR.adata SM2 [r; c]).
+Proof. exact (P.gen_step4 G.cbca_step_4 eq_refl). Qed.
+
+(* HEADLINE on the generated kernels.  For every plane k and every pixel of the computable area:
+   the generated cross_support run on the prepared left / right images (filtered, cropped,
+   NaN -> +inf), then the four generated kernels chained as the plane loop of
+   cost_volume_aggregation chains them ([K.ir_plane]) on the plane's costs and on
+   range_col[valid_index] / range_col_right[valid_index], then the anchor, the NaN re-injection
+   and the division ([K.finish_cell]) -- all of it evaluates without leaving an array, and the
+   result is the aggregate of the specification. *)
+Theorem C11_gen_model_eq_spec : forall x : cbca_in,
+  1 <= i_dist x -> 0 <= i_off x -> 1 <= cnr x -> 1 <= cnc x ->
+  forall k r c,
+  0 <= k < n_disp x -> in_crop x r c = true ->
+  let d := nth_disp x k in
+  let s := plane_image (i_subpix x) d in
+  let cv := crop (i_off x) (i_cv x k) in
+  (forall r' c', 0 <= r' < cnr x -> 0 <= c' < cnc x ->
+                 ~ (0 <= c' + plane_shift d < cncR x s) ->
+                 i_cv x k (r' + i_off x) (c' + i_off x) = None) ->
+  forall IML IMR CV RC RCR,
+  P.img_arr IML (cnr x) (cnc x) (crop (i_off x) (left_filtered x)) ->
+  P.img_arr IMR (cnr x) (cncR x s) (crop (i_off x) (right_filtered x s)) ->
+  P.cost_arr CV (cnr x) (cnc x) cv ->
+  P.ints_arr RC (K.valid_cols (cnc x) (cncR x s) d) (fun c0 => c0) ->
+  P.ints_arr RCR (K.valid_cols (cnc x) (cncR x s) d) (corr d) ->
+  exists CL CR S4 SM4,
+    IR.run_kernel G.cross_support [IR.VInt (i_dist x); IR.VFlt (IR.Fin (i_inten x))] [IML] = Some [CL] /\
+    IR.run_kernel G.cross_support [IR.VInt (i_dist x); IR.VFlt (IR.Fin (i_inten x))] [IMR] = Some [CR] /\
+    K.ir_plane G.cbca_step_1 G.cbca_step_2 G.cbca_step_3 G.cbca_step_4 CV CL CR RC RCR = Some (S4, SM4) /\
+    K.finish_cell (cv (r - i_off x) (c - i_off x))
+                  (IR.adata S4 [r - i_off x; c - i_off x]) (IR.adata SM4 [r - i_off x; c - i_off x])
+    = Some (agg_spec (spec_left x) (spec_right x s) (i_dist x) (i_inten x) (plane_shift d) cv
+                     (r - i_off x) (c - i_off x)).
+Proof.
+  exact (fun x Hd Ho Hr Hc =>
+           P.ir_cbca_eq_spec x Hd Ho Hr Hc G.cross_support G.cbca_step_1 G.cbca_step_2 G.cbca_step_3 G.cbca_step_4
+                             eq_refl eq_refl eq_refl eq_refl eq_refl).
+Qed.
+
+(* ---- non-vacuity of the generated kernels: they run ([vm_compute] of the evaluator on the trees
+   regenerated from the source).  cross_support on the line 10, masked, 10, 10 with
+   cbca_distance = 1 (the regression witness above): pixel 2 has no left arm and a one-pixel
+   right arm; cbca_step_1 on the row 3, NaN, 4: running sums 3, 3, 7 and the sentinel 0 read
+   through index -1. *)
+Definition ex_line : IR.arr :=
+  IR.mkArr [1; 4] (fun k => match k with [_; 1] => IR.VFlt IR.PInf | _ => IR.VFlt (IR.Fin 10) end).
+Definition ex_row : IR.arr :=
+  IR.mkArr [1; 3] (fun k => match k with
+                            | [_; 0] => IR.VFlt (IR.Fin 3) | [_; 1] => IR.VFlt IR.NaN | _ => IR.VFlt (IR.Fin 4)
+                            end).
+Example C11_gen_example_runs :
+  (match IR.run_kernel G.cross_support [IR.VInt 1; IR.VFlt (IR.Fin (5 # 1))] [ex_line] with
+   | Some [C] => Some (map (fun k => IR.adata C [0; 2; k]) [0; 1; 2; 3])
+   | _ => None
+   end = Some [IR.VInt 0; IR.VInt 1; IR.VInt 0; IR.VInt 0])
+  /\
+  (match IR.run_kernel G.cbca_step_1 [] [ex_row] with
+   | Some [S1] => Some (map (fun c => IR.adata S1 [0; c]) [0; 1; 2; -1])
+   | _ => None
+   end = Some [IR.VFlt (IR.Fin 3); IR.VFlt (IR.Fin 3); IR.VFlt (IR.Fin 7); IR.VFlt (IR.Fin 0)]).
+Proof. split; vm_compute; reflexivity. Qed.
+
 Print Assumptions C11_arms_spec.
 Print Assumptions C11_arm_is_longest_run.
 Print Assumptions C11_arms_in_image.
@@ -209,3 +386,15 @@ Print Assumptions C11_model_eq_spec.
 Print Assumptions C11_nan_preserved.
 Print Assumptions C11_border_unchanged.
 Print Assumptions C11_plane_independent.
+Print Assumptions C11_gen_cross_support_canonical.
+Print Assumptions C11_gen_step1_canonical.
+Print Assumptions C11_gen_step2_canonical.
+Print Assumptions C11_gen_step3_canonical.
+Print Assumptions C11_gen_step4_canonical.
+Print Assumptions C11_gen_cross_support_eq.
+Print Assumptions C11_gen_arms_fit_int32.
+Print Assumptions C11_gen_step1_eq.
+Print Assumptions C11_gen_step2_eq.
+Print Assumptions C11_gen_step3_eq.
+Print Assumptions C11_gen_step4_eq.
+Print Assumptions C11_gen_model_eq_spec.
